@@ -34,7 +34,7 @@ def same(got, ref, label, detail):
 @st.composite
 def gate_cases(draw, tier):
     kind = draw(st.sampled_from(["named", "rot", "rot2", "controlled",
-                                 "ketbra", "custom"]))
+                                 "ketbra", "custom", "scalar"]))
     if kind == "named":
         g = draw(st.sampled_from(qspec.ONE_QUBIT + qspec.TWO_QUBIT))
         b = {"k": "g", "g": g}
@@ -44,6 +44,15 @@ def gate_cases(draw, tier):
     elif kind == "rot2":
         b = {"k": "g", "g": draw(st.sampled_from(qspec.ROT2)),
              "a": [draw(phases())]}
+    elif kind == "scalar":
+        # pure scalars and square roots, of real and of complex numbers
+        re, im = draw(st.integers(-3, 3)), draw(st.integers(-3, 3))
+        if draw(st.booleans()):
+            b = {"k": "g", "g": "scalar", "a": [re / 2, im / 2],
+                 "mixed": False}
+        else:
+            b = {"k": "g", "g": "sqrt", "a": [[re / 2, im / 2] if im
+                                              else abs(re) / 2 + 0.5]}
     elif kind == "custom":
         b = {"k": "g", "g": "Q", "a": [draw(st.integers(1, 2)),
                                        draw(st.integers(0, 4))]}
@@ -83,7 +92,7 @@ def check_gate(case):
     n = len(spec["dom"])
     ref = qsem.pure_matrix(spec)
     same(lib_matrix(box, n), ref, "gate-vs-tket", repr(box))
-    if b["g"] not in ("Ket", "Bra"):
+    if b["g"] not in ("Ket", "Bra", "scalar", "sqrt"):
         same(ref @ ref.conj().T, np.eye(2 ** n), "reference-unitary",
              repr(box))
     # the dagger (taken 1 or 2 times) is the conjugate transpose
